@@ -23,6 +23,14 @@ type LimCase struct {
 	Size      int    `json:"size"`       // (inflated) message size
 	Parts     []int  `json:"parts,omitempty"`
 	Piece     int    `json:"piece"`
+	BFinal    bool   `json:"bfinal,omitempty"` // bomb: the deflate stream ends with a BFINAL block
+}
+
+func (c *LimCase) deflate(b []byte) []byte {
+	if c.BFinal {
+		return deflateFinal(b, 9)
+	}
+	return deflate(b, 9)
 }
 
 func genLimCase(r *simrt.Rand, tier string) *LimCase {
@@ -51,6 +59,7 @@ func genLimCase(r *simrt.Rand, tier string) *LimCase {
 		}
 		c.Parts = append(c.Parts, left)
 	case "bomb":
+		c.BFinal = r.Bool(0.4)
 		if r.Bool(0.5) {
 			c.Size = c.Limit * r.Pick(2, 10, 100, 1000)
 			if c.Size > 64<<20 {
@@ -142,7 +151,7 @@ func runLim(t *testing.T, ci interface{}, trace bool) *common.Outcome {
 			wire = append(wire, Frame{Fin: i == len(c.Parts)-1, Op: op, Masked: c.Server, Payload: mk(p)}.encode(key)...)
 		}
 	case "bomb":
-		wire = Frame{Fin: true, Rsv: 4, Op: 2, Masked: c.Server, Payload: deflate(mk(c.Size), 9)}.encode(key)
+		wire = Frame{Fin: true, Rsv: 4, Op: 2, Masked: c.Server, Payload: c.deflate(mk(c.Size))}.encode(key)
 	case "control-recv":
 		wire = Frame{Fin: true, Op: 9, Masked: c.Server, Payload: mk(c.Size)}.encode(key)
 	case "trickle":
@@ -193,7 +202,7 @@ func runLim(t *testing.T, ci interface{}, trace bool) *common.Outcome {
 				o.Fail("no-1009-close", role+"/"+c.Scenario, "%s of %d bytes with limit %d: the connection was failed (%v) but the close frame sent carries code %d, not 1009", c.Scenario, c.Size, c.Limit, end.parseErr, code)
 			}
 		}
-	} else if c.Scenario == "bomb" && len(deflate(mk(c.Size), 9)) > c.Limit {
+	} else if c.Scenario == "bomb" && len(c.deflate(mk(c.Size))) > c.Limit {
 		// the compressed payload itself is above the limit (tiny messages): refusing it is consistent
 	} else if c.Scenario == "control-recv" && c.Limit < 125 {
 		// whether MessageLengthLimit below 125 also applies to control frames is not stated: nothing asserted
